@@ -136,7 +136,65 @@ const deferMem = "DEFER"
 // by functions whose contract mentions rvver (C13).
 const rvMem = "RV"
 
-func (v *fnVC) rvEffect(con *Contract, env *Env, pkg, key string) {
+// handlesReflect: some parameter (or the receiver) is, or directly contains by value, a reflect.Value, an
+// interface other than error, or a function value.
+func handlesReflect(sig *types.Signature) bool {
+	var has func(t types.Type, depth int) bool
+	has = func(t types.Type, depth int) bool {
+		if n, ok := t.(*types.Named); ok && n.Obj().Pkg() != nil && n.Obj().Pkg().Path() == "reflect" {
+			return true
+		}
+		switch u := t.Underlying().(type) {
+		case *types.Interface:
+			return !internalIface(t)
+		case *types.Signature:
+			return true
+		case *types.Struct:
+			if depth > 2 {
+				return true
+			}
+			for i := 0; i < u.NumFields(); i++ {
+				if has(u.Field(i).Type(), depth+1) {
+					return true
+				}
+			}
+		case *types.Slice:
+			return has(u.Elem(), depth+1)
+		case *types.Array:
+			return has(u.Elem(), depth+1)
+		case *types.Map:
+			return has(u.Elem(), depth+1) || has(u.Key(), depth+1)
+		}
+		return false
+	}
+	if r := sig.Recv(); r != nil && has(r.Type(), 0) {
+		return true
+	}
+	for i := 0; i < sig.Params().Len(); i++ {
+		if has(sig.Params().At(i).Type(), 0) {
+			return true
+		}
+	}
+	return false
+}
+
+// internalIface: error, ucfg.Error, or an unexported interface of the module (value, field, varEvaler, ...):
+// every implementation is module code that holds no reflect handle.
+func internalIface(t types.Type) bool {
+	u, ok := t.Underlying().(*types.Interface)
+	if !ok {
+		return false
+	}
+	if u.NumMethods() == 1 && u.Method(0).Name() == "Error" {
+		return true
+	}
+	if n, ok := t.(*types.Named); ok && n.Obj().Pkg() != nil && strings.HasPrefix(n.Obj().Pkg().Path(), modPrefix) {
+		return !n.Obj().Exported() || n.Obj().Name() == "Error"
+	}
+	return false
+}
+
+func (v *fnVC) rvEffect(con *Contract, env *Env, pkg, key string, callee *ssa.Function, c *ssa.CallCommon) {
 	if !v.usesRV {
 		return
 	}
@@ -159,6 +217,13 @@ func (v *fnVC) rvEffect(con *Contract, env *Env, pkg, key string) {
 			}
 		}
 		v.notes = append(v.notes, "assume (rvwrites): "+key+" writes reflect storage only at: "+strings.Join(con.RvWrites, ", "))
+	case callee != nil && len(callee.FreeVars) == 0 && !handlesReflect(callee.Signature):
+		// a function that is given no reflect handle, user-implementable interface value or function value
+		// (directly or as a field or element of a by-value parameter) has nothing to write reflect storage through
+	case c != nil && c.IsInvoke() && internalIface(c.Value.Type()) && !handlesReflect(c.Signature()):
+		// a method of an interface that only this module implements (or of error), same condition
+		// a function that is given no reflect handle, interface value or function value (directly or as a field or
+		// element of a by-value parameter) has nothing to write reflect storage through
 	case pkg == "reflect" && !(strings.Contains(key, ").Set") || key == "Copy"):
 		// reflect functions other than the setters do not write through the handles
 	case con != nil && con.Extern && pkg != "reflect":
@@ -294,7 +359,7 @@ func (v *fnVC) applyCall(c *ssa.CallCommon, x *ssa.Call, pos token.Pos, cond T) 
 		// a callee that receives a reference (pointer, slice, map, interface, function) may write through it: the
 		// heap is havoc'd (private cells survive); with scalar and string arguments only, it is assumed not to
 		// touch library state
-		v.rvEffect(nil, nil, "", "dynamic call")
+		v.rvEffect(nil, nil, "", "dynamic call", nil, c)
 		refArg := false
 		for _, a := range c.Args {
 			switch a.Type().Underlying().(type) {
@@ -330,7 +395,7 @@ func (v *fnVC) applyCall(c *ssa.CallCommon, x *ssa.Call, pos token.Pos, cond T) 
 	}
 	if con == nil {
 		if (callee != nil && callee.Pkg != nil && strings.HasPrefix(callee.Pkg.Pkg.Path(), modPrefix)) || c.IsInvoke() || callee == nil || pkg == "reflect" {
-			v.rvEffect(nil, nil, pkg, key)
+			v.rvEffect(nil, nil, pkg, key, callee, c)
 		}
 		inMod := callee != nil && callee.Pkg != nil && strings.HasPrefix(callee.Pkg.Pkg.Path(), modPrefix)
 		extIface := c.IsInvoke() && pkg != "" && !strings.HasPrefix(pkg, modPrefix) // method of an external interface (reflect.Type, ...)
@@ -381,7 +446,7 @@ func (v *fnVC) applyCall(c *ssa.CallCommon, x *ssa.Call, pos token.Pos, cond T) 
 			v.oblige("at-call@"+key, r.Text, t, pos)
 		}
 	}
-	v.rvEffect(con, env, pkg, key)
+	v.rvEffect(con, env, pkg, key, callee, c)
 	// frame
 	if len(con.Modifies) > 0 {
 		v.calleeFrameCheck(con, env, key, pos)
